@@ -12,7 +12,10 @@ for n in names:
     if sel and not any(n.startswith(p) for p in sel): continue
     meta = json.load(open(f"{S}/{n}/meta.json"))
     checks = [meta["breaks_property"]] + meta.get("also_check", [])
-    r = sh(f"git -C /repo apply {S}/{n}/patch.diff")
+    # a change written before a later fix touched the same lines is applied to the tree without that fix
+    pre = "".join(f"git show {c} -- src | git apply -R && " for c in meta.get("apply_without_fix", []))
+    r = sh(f"cd /repo && {pre}git apply {S}/{n}/patch.diff")
+    if r.returncode != 0: sh("git -C /repo checkout -- .")
     if r.returncode != 0:
         print(n, "PATCH DOES NOT APPLY", r.stderr[:200]); continue
     det = {}
@@ -25,7 +28,7 @@ for n in names:
     finally:
         sh("git -C /repo checkout -- .")
     meta["detected_by"] = det
-    meta["what_was_run"] = "git -C /repo apply patch.diff; ./check <property> --tier quick (VERIF_SEED=%s); git -C /repo checkout -- ." % os.environ.get('VERIF_SEED','1')
+    meta["what_was_run"] = ("".join(f"git show {c} -- src | git apply -R; " for c in meta.get("apply_without_fix", []))) + "git -C /repo apply patch.diff; ./check <property> --tier quick (VERIF_SEED=%s); git -C /repo checkout -- ." % os.environ.get('VERIF_SEED','1')
     json.dump(meta, open(f"{S}/{n}/meta.json", "w"), indent=1)
     print(n, {k: v["exit"] for k, v in det.items()})
 # summary
@@ -34,5 +37,6 @@ for n in names:
     meta = json.load(open(f"{S}/{n}/meta.json"))
     det = meta.get("detected_by", {})
     caught = [k for k, v in det.items() if v["exit"] == 1]
-    rows.append(f"| {n} | {meta['breaks_property']} | {(meta.get('summary') or '')[:110].replace('|','/')} | {', '.join(caught) if caught else ('MISSED' if det else 'not run')} |")
+    note = " (applied to the tree without fix %s)" % ",".join(meta["apply_without_fix"]) if meta.get("apply_without_fix") else ""
+    rows.append(f"| {n} | {meta['breaks_property']} | {(meta.get('summary') or '')[:110].replace('|','/')} | {(', '.join(caught) + note) if caught else ('MISSED' if det else 'not run')} |")
 open(f"{S}/RESULTS.md", "w").write("# Seeded changes and the checks that catch them\n\n| change | property | what it changes | caught by (quick) |\n|---|---|---|---|\n" + "\n".join(rows) + "\n")
